@@ -186,8 +186,63 @@ func knownNonNil(v ssa.Value) bool {
 		return nonNilCtors[calleeName(&x.Call)]
 	case *ssa.Const:
 		return x.Value != nil
+	case *ssa.UnOp:
+		// a sentinel: a package-level variable that its package assigns once, at initialisation, a constructed value
+		if g, ok := x.X.(*ssa.Global); ok && x.Op == token.MUL {
+			return sentinelGlobal(g)
+		}
 	}
 	return false
+}
+
+var sentinelCache = map[*ssa.Global]bool{}
+
+func sentinelGlobal(g *ssa.Global) bool {
+	if v, ok := sentinelCache[g]; ok {
+		return v
+	}
+	sentinelCache[g] = false
+	pkg := g.Package()
+	if pkg == nil {
+		return false
+	}
+	n, ok := 0, true
+	var visit func(f *ssa.Function)
+	visit = func(f *ssa.Function) {
+		for _, b := range f.Blocks {
+			for _, in := range b.Instrs {
+				if st, isSt := in.(*ssa.Store); isSt && st.Addr == ssa.Value(g) {
+					n++
+					if f.Name() != "init" || !knownNonNil(st.Val) {
+						ok = false
+					}
+				}
+			}
+		}
+		for _, a := range f.AnonFuncs {
+			visit(a)
+		}
+	}
+	for _, m := range pkg.Members {
+		if f, isF := m.(*ssa.Function); isF {
+			visit(f)
+		}
+		if t, isT := m.(*ssa.Type); isT {
+			for _, T := range []types.Type{t.Type(), types.NewPointer(t.Type())} {
+				ms := pkg.Prog.MethodSets.MethodSet(T)
+				for i := 0; i < ms.Len(); i++ {
+					if f := pkg.Prog.MethodValue(ms.At(i)); f != nil && f.Pkg == pkg {
+						visit(f)
+					}
+				}
+			}
+		}
+	}
+	// (a variable of another package cannot be assigned from outside unless exported; the module's exported
+	// sentinels are named Err…, and no rule relies on one that is not)
+	res := ok && n == 1 && strings.HasPrefix(g.Name(), "Err")
+	sentinelCache[g] = res
+	return res
 }
 
 // condOv: while a walk evaluates the cut of an edge, the phis inside the branch condition
